@@ -1,45 +1,58 @@
 import WK.Model.C29
 /-
-  C29 — exact characterisation of the `activeAppendItems` loop as coded.
+  C29 — `activeAppendItems`: the loop as coded returns exactly the live items; exact characterisation
+  of the loop before its repair.
 -/
 set_option linter.unusedSimpArgs false
 namespace WK.C29
 
-theorem activeGo_some : ∀ (r : List Bool) (i : Nat) (a : List Nat),
-    activeGo r i (some a) true = a ++ liveFrom r i
-  | [], _, a => by simp [activeGo, liveFrom]
-  | true :: r, i, a => by simp [activeGo, liveFrom, activeGo_some r (i + 1) a]
-  | false :: r, i, a => by simp [activeGo, liveFrom, activeGo_some r (i + 1) (a ++ [i])]
+theorem activeGoPreFix_some : ∀ (r : List Bool) (i : Nat) (a : List Nat),
+    activeGoPreFix r i (some a) true = a ++ liveFrom r i
+  | [], _, a => by simp [activeGoPreFix, liveFrom]
+  | true :: r, i, a => by simp [activeGoPreFix, liveFrom, activeGoPreFix_some r (i + 1) a]
+  | false :: r, i, a => by simp [activeGoPreFix, liveFrom, activeGoPreFix_some r (i + 1) (a ++ [i])]
 
 /-- the state after an inactive item 0: `active` is still nil although filtering has begun -/
-theorem activeGo_nil_filtered_one : ∀ (r : List Bool),
-    activeGo r 1 none true = (match r with | true :: _ => [0] | _ => []) ++ liveFrom r 1
-  | [] => by simp [activeGo, liveFrom]
-  | true :: r => by simp [activeGo, liveFrom, activeGo_some, List.range_succ]
-  | false :: r => by simp [activeGo, liveFrom, activeGo_some]
+theorem activeGoPreFix_nil_filtered_one : ∀ (r : List Bool),
+    activeGoPreFix r 1 none true = (match r with | true :: _ => [0] | _ => []) ++ liveFrom r 1
+  | [] => by simp [activeGoPreFix, liveFrom]
+  | true :: r => by simp [activeGoPreFix, liveFrom, activeGoPreFix_some, List.range_succ]
+  | false :: r => by simp [activeGoPreFix, liveFrom, activeGoPreFix_some]
 
-theorem activeGo_unfiltered : ∀ (r : List Bool) (i : Nat), 0 < i →
-    activeGo r i none false = List.range i ++ liveFrom r i
-  | [], i, _ => by simp [activeGo, liveFrom]
+theorem activeGoPreFix_unfiltered : ∀ (r : List Bool) (i : Nat), 0 < i →
+    activeGoPreFix r i none false = List.range i ++ liveFrom r i
+  | [], i, _ => by simp [activeGoPreFix, liveFrom]
   | true :: r, i, hi => by
     have : i ≠ 0 := by omega
-    simp [activeGo, liveFrom, this, activeGo_some]
+    simp [activeGoPreFix, liveFrom, this, activeGoPreFix_some]
   | false :: r, i, hi => by
-    simp [activeGo, liveFrom, activeGo_unfiltered r (i + 1) (by omega), List.range_succ]
+    simp [activeGoPreFix, liveFrom, activeGoPreFix_unfiltered r (i + 1) (by omega), List.range_succ]
 
 /-- exact behaviour: the live items in order — plus item 0 when items 0 and 1 are both inactive -/
-theorem activeItems_eq (flags : List Bool) :
-    activeItems flags = (match flags with | true :: true :: _ => [0] | _ => []) ++ liveFrom flags 0 := by
-  unfold activeItems
+theorem activeItemsPreFix_eq (flags : List Bool) :
+    activeItemsPreFix flags = (match flags with | true :: true :: _ => [0] | _ => []) ++ liveFrom flags 0 := by
+  unfold activeItemsPreFix
   match flags with
-  | [] => simp [activeGo, liveFrom]
+  | [] => simp [activeGoPreFix, liveFrom]
   | false :: r =>
-    simp [activeGo, liveFrom, activeGo_unfiltered r 1 (by omega), List.range_succ]
+    simp [activeGoPreFix, liveFrom, activeGoPreFix_unfiltered r 1 (by omega), List.range_succ]
   | true :: r =>
-    simp only [activeGo, if_true, liveFrom]
-    rw [activeGo_nil_filtered_one r]
+    simp only [activeGoPreFix, if_true, liveFrom]
+    rw [activeGoPreFix_nil_filtered_one r]
     cases r with
     | nil => simp
     | cons b r' => cases b <;> simp
+
+
+theorem activeGo_filtered : ∀ (r : List Bool) (i : Nat) (a : List Nat), activeGo r i a true = a ++ liveFrom r i
+  | [], _, a => by simp [activeGo, liveFrom]
+  | true :: r, i, a => by simp [activeGo, liveFrom, activeGo_filtered r (i + 1) a]
+  | false :: r, i, a => by simp [activeGo, liveFrom, activeGo_filtered r (i + 1) (a ++ [i])]
+
+theorem activeGo_unfiltered' : ∀ (r : List Bool) (i : Nat) (a : List Nat),
+    activeGo r i a false = List.range i ++ liveFrom r i
+  | [], i, a => by simp [activeGo, liveFrom]
+  | true :: r, i, a => by simp [activeGo, liveFrom, activeGo_filtered]
+  | false :: r, i, a => by simp [activeGo, liveFrom, activeGo_unfiltered' r (i + 1) a, List.range_succ]
 
 end WK.C29
